@@ -1,6 +1,7 @@
 \* negative configuration: the variant "size_no_vappend" of the model must be rejected by TLC
 CONSTANTS
-  Geos <- GS_neg
+  Geos = {"neg"}
+  GeoSet <- PicGeoSet
   Handles = {0}
   MaxOps = 4
   MaxResize = 2
